@@ -66,7 +66,6 @@ MUTANTS = [
     ("c08_global_leave_one_slot_more", "C08", [(RS, "                    end_idx = self.project.dateToIdx(leave.interval.end)\n                    for i in range(max(start_idx, 0), min(end_idx, size)):\n                        sb = self.scoreboard[i]\n                        val =", "                    end_idx = self.project.dateToIdx(leave.interval.end) + 1\n                    for i in range(max(start_idx, 0), min(end_idx, size)):\n                        sb = self.scoreboard[i]\n                        val =")]),
     ("c02_own_leave_starts_one_slot_late", "C02", [(RS, "                    start_idx = self.project.dateToIdx(leave.interval.start)\n                    end_idx = self.project.dateToIdx(leave.interval.end)\n                    for i in range(max(start_idx, 0), min(end_idx, size)):\n                        sb = self.scoreboard[i]\n                        if sb is not None:", "                    start_idx = self.project.dateToIdx(leave.interval.start) + 1\n                    end_idx = self.project.dateToIdx(leave.interval.end)\n                    for i in range(max(start_idx, 0), min(end_idx, size)):\n                        sb = self.scoreboard[i]\n                        if sb is not None:")]),
     ("c03_unbooked_slot_credited_whole", "C03", [(RS, "        available_seconds = self.getAvailableSecondsInSlot(sb_idx)\n        efficiency", "        available_seconds = self.getAvailableSecondsInSlot(sb_idx) if self.scoreboard[sb_idx] is not None else float(self.project.attributes.get(\"scheduleGranularity\", 3600))\n        efficiency")]),
-    ("c01_prepare_clears_ledger_via_init", "C01", [(RS, "        self.scoreboard = Scoreboard(start, end, granularity, 2)\n        size = self.project.scoreboardSize()\n", "        self.scoreboard = Scoreboard(start, end, granularity, 2)\n        size = self.project.scoreboardSize()\n        self.slotSecondsUsed = {}\n        self.slotTaskUsage = {}\n")]),
     ("c16_limits_chain_kept_on_task", "C16", [(TS, "        all_limits = []\n        task: Optional[Any] = self.property\n        while task is not None:\n            limits = task.get(\"limits\", self.scenarioIdx)\n            if limits:\n                all_limits.append(limits)\n            task = task.parent\n        return all_limits", "        all_limits = getattr(self.property, \"_limitsChain\", None)\n        if all_limits is not None:\n            return all_limits\n        all_limits = []\n        task: Optional[Any] = self.property\n        while task is not None:\n            limits = task.get(\"limits\", self.scenarioIdx)\n            if limits:\n                all_limits.append(limits)\n            task = task.parent\n        self.property._limitsChain = all_limits\n        return all_limits")]),
     # ------------------------------------------------------------------ revert of repaired defect F60 (C06)
     ("c06_alap_milestone_slot_start", "C06", [(TS, "                    date = self.backwardBound or self.project.idxToDate(slot_idx)", "                    date = self.project.idxToDate(slot_idx)")]),
@@ -138,8 +137,6 @@ MUTANTS = [
                                              "        limits = self.property.get")]),
     ("c01_forced_booking", "C01", [(TS, "res_scenario.book(slot_idx, self.property)", "res_scenario.book(slot_idx, self.property, True)")]),
     # ------------------------------------------------------------------ C02
-    ("c02_available_skips_onshift", "C02", [(RS, "        if not self.onShift(sb_idx):\n            return False\n\n        # Check if slot has any available time",
-                                             "        # Check if slot has any available time")]),
     ("c02_leave_end_inclusive", "C02", [(RS, "ALL:leave.interval.start <= date < leave.interval.end", "leave.interval.start < date < leave.interval.end")]),
     ("c02_weekend_gt5", "C02", [(PJ, "        if weekday >= 5:  # Saturday or Sunday", "        if weekday > 5:  # Saturday or Sunday")]),
     ("c02_hours_le17", "C02", [(PJ, "        result: bool = 9 <= hour < 17  # Within 9am-5pm", "        result: bool = 9 <= hour <= 17  # Within 9am-5pm")]),
@@ -218,7 +215,7 @@ MUTANTS = [
     ("c12_default_shared", "C12", [(PR, "            self._value = deep_clone(self._type.default)", "            self._value = self._type.default")]),
     ("c12_random_tiebreak", "C12", [(PJ, "            seq = t.get(\"seqno\") or 0\n            return (-prio, -crit, seq)", "            seq = t.get(\"seqno\") or 0\n            import random\n\n            return (-prio, -crit, seq + random.random() * 0)")]),
     ("c12_set_iteration", "C12", [(PJ, "        for anchor in alap_anchors:\n            anchor_id =", "        for anchor in set(alap_anchors):\n            anchor_id =")]),
-    ("c12_reschedule_guard_removed", "C12", [(PJ, "tasks: list[Any] = [t for t in all_tasks if t.leaf() and not t.get(\"scheduled\", scIdx)]", "tasks: list[Any] = [t for t in all_tasks if t.leaf()]")]),
+    ("c12_reschedule_guard_removed", "C12", [(PJ, "tasks: list[Any] = [t for t in all_tasks if t.leaf() and not t.get(\"scheduled\", scIdx) and t not in inverted]", "tasks: list[Any] = [t for t in all_tasks if t.leaf() and t not in inverted]")]),
     ("c12_clock_in_schedule", "C12", [(PJ, "    def schedule(self) -> bool:\n        # Extend project end if tasks require more time", "    def schedule(self) -> bool:\n        import time as _t\n\n        self.attributes[\"stamp\"] = _t.time()\n        # Extend project end if tasks require more time")]),
     # ------------------------------------------------------------------ C13
     ("c13_pyx_clamp_off_by_one", "C13", [(SP, "        if idx >= size:\n            return size - 1\n\n    return idx", "        if idx >= size:\n            return size\n\n    return idx")]),
@@ -268,7 +265,7 @@ MUTANTS = [
     ("c19_report_id_not_hash", "C19", [(PL, "                report_data[\"report_id\"] = file_hash", "                report_data[\"report_id\"] = auto_report_id")]),
     ("c19_systemexit_escapes", "C19", [(MN, "    except SystemExit as e:\n        # Library code reports some errors with sys.exit(); a programmatic caller must get a\n        # result back (with the captured message) instead of losing control of the process.\n        error_output = stderr_capture.getvalue()\n        return (False, error_output or f\"Report generation aborted (exit status {e.code})\")\n\n", "")]),
     ("c19_engine_print", "C19", [(MN, "        # Generate reports\n        if not self.args.no_reports and not self.generate_reports():", "        print(\"Generating reports\")\n        # Generate reports\n        if not self.args.no_reports and not self.generate_reports():")]),
-    ("c19_empty_file_exit2", "C19", [(PL, "    if not path.stat().st_size:\n        raise FileNotFoundError(f\"File is empty: {tjp_path}\")", "    if not path.stat().st_size:\n        raise ReportGenerationError(f\"File is empty: {tjp_path}\")")]),
+    ("c19_empty_file_exit2", "C19", [(PL, "    if blank:\n        raise FileNotFoundError(f\"File is empty: {tjp_path}\")", "    if blank:\n        raise ReportGenerationError(f\"File is empty: {tjp_path}\")")]),
     # ------------------------------------------------------------------ C20
     ("c20_mkstemp_before_read", "C20", [(PL, "    try:\n        with open(tjp_path) as f:\n            original_content = f.read()\n    except (OSError, UnicodeDecodeError) as e:\n        raise FileNotFoundError(f\"Cannot read file: {tjp_path} ({e})\") from e\n\n    # Create temporary file with random suffix (safe for concurrent execution)\n    temp_fd, temp_path = tempfile.mkstemp(suffix=\".tjp\", prefix=\"plan_auto_\")\n    temp_file = Path(temp_path)\n",
                                          "    # Create temporary file with random suffix (safe for concurrent execution)\n    temp_fd, temp_path = tempfile.mkstemp(suffix=\".tjp\", prefix=\"plan_auto_\")\n    temp_file = Path(temp_path)\n    try:\n        with open(tjp_path) as f:\n            original_content = f.read()\n    except (OSError, UnicodeDecodeError) as e:\n        raise FileNotFoundError(f\"Cannot read file: {tjp_path} ({e})\") from e\n")]),
@@ -287,6 +284,10 @@ UNDECIDED = [
 
 # behaviour-preserving edits: the checks named must stay silent
 BENIGN = [
+    # ------------------------------------------------------------------ former mutants that later repairs made behaviour-preserving
+    ("b_ledger_emptied_when_slot_table_is_built", ["C01", "C12"], [(RS, "        self.scoreboard = Scoreboard(start, end, granularity, 2)\n        size = self.project.scoreboardSize()\n", "        self.scoreboard = Scoreboard(start, end, granularity, 2)\n        size = self.project.scoreboardSize()\n        self.slotSecondsUsed = {}\n        self.slotTaskUsage = {}\n")]),
+    ("b_available_relies_on_slot_table_markers", ["C02", "C08"], [(RS, "        if not self.onShift(sb_idx):\n            return False\n\n        # Check if slot has any available time",
+                                             "        # Check if slot has any available time")]),
     ("b_seconds_rounded_up", ["C06", "C01", "C03"], [(TS, "        seconds_rounded = max(1, round(seconds_into_slot))", "        seconds_rounded = max(1, int(round(seconds_into_slot)))")]),
     # ------------------------------------------------------------------ round 3 (second batch)
     ("b_day_range_branches_swapped", ["C02"], [(TP, "            if start_idx <= end_idx:\n                return day_order[start_idx : end_idx + 1]\n            else:\n                # Wrap around (unusual but supported)\n                return day_order[start_idx:] + day_order[: end_idx + 1]", "            if start_idx > end_idx:\n                return day_order[start_idx:] + day_order[: end_idx + 1]\n            return day_order[start_idx : end_idx + 1]")]),
